@@ -55,7 +55,10 @@ func c04Strace(dir string, hist int, rootArg, mode string, n int, traceOut strin
 // c04Content: what the statement talks about, restricted to what the history wrote
 // (the instance root's own edge and the default admin user are created by
 // initialisation with fresh ids/times and are compared separately).
-func c04Content(inst *sh.Inst) (string, sh.Snapshot, error) {
+func c04Content(inst *sh.Inst, hist ...int) (string, sh.Snapshot, error) {
+	if len(hist) > 0 && hist[0] == c04.RootSwitch {
+		return c04ContentRootSwitch(inst)
+	}
 	snap, err := inst.Snap(append([]string{inst.RootID}, c04.Universe...))
 	if err != nil {
 		return "", snap, err
@@ -75,6 +78,28 @@ func c04Content(inst *sh.Inst) (string, sh.Snapshot, error) {
 		}
 		if e.Down == inst.RootID {
 			lines = append(lines, fmt.Sprintf("ROOTPOINTS{%s}\n", sh.CanonPoints(e.Points)))
+		}
+	}
+	sort.Strings(lines)
+	return strings.Join(lines, ""), snap, nil
+}
+
+// c04ContentRootSwitch: the root-switch history is written against the configured id "root0"; ids are literal
+// (which of the two is the instance root is compared separately). The first root's own edge points carry the
+// time of its creation and are left out.
+func c04ContentRootSwitch(inst *sh.Inst) (string, sh.Snapshot, error) {
+	ids := []string{"root0", c04.NewRoot, "A"}
+	snap, err := inst.Snap(ids)
+	if err != nil {
+		return "", snap, err
+	}
+	var lines []string
+	for _, e := range snap.Edges {
+		switch e.Down {
+		case "root0":
+			lines = append(lines, fmt.Sprintf("%s>%s[%s]{%s}\n", e.Up, e.Down, e.Type, sh.CanonPoints(e.Points)))
+		case c04.NewRoot, "A":
+			lines = append(lines, fmt.Sprintf("%s>%s[%s]{%s}{%s}\n", e.Up, e.Down, e.Type, sh.CanonPoints(e.Points), sh.CanonPoints(e.EdgePoints)))
 		}
 	}
 	sort.Strings(lines)
@@ -101,7 +126,7 @@ func checkC04(r *mc.Report, thorough bool) {
 		root string
 		mode string
 	}
-	variants := []variant{{0, "root0", "A"}, {0, "root0", "B"}, {1, "-", "A"}, {3, "root0", "A"}, {4, "root0", "A"}}
+	variants := []variant{{0, "root0", "A"}, {0, "root0", "B"}, {1, "-", "A"}, {3, "root0", "A"}, {4, "root0", "A"}, {c04.RootSwitch, "root0", "A"}}
 	if thorough {
 		variants = nil
 		for h := 0; h < c04.NumHistories; h++ {
@@ -136,13 +161,13 @@ func checkC04(r *mc.Report, thorough bool) {
 		}
 		reqs := c04.History(v.hist, ref.RootID)
 		var S []string
-		c0, _, _ := c04Content(ref)
+		c0, _, _ := c04Content(ref, v.hist)
 		S = append(S, c0)
 		for _, q := range reqs {
 			if err := c04.Send(ref.Nc, q); err != nil {
 				r.AddViolation(name, "harness", fmt.Sprintf("HARNESS: reference run refused %s: %v", q.What, err), nil)
 			}
-			c, _, _ := c04Content(ref)
+			c, _, _ := c04Content(ref, v.hist)
 			S = append(S, c)
 		}
 		ref.Stop()
@@ -227,9 +252,23 @@ func checkC04(r *mc.Report, thorough bool) {
 					rec.Stop()
 				}
 			}()
+			// the instance root after recovery: the one announced at start, or — in the root-switch history, once the
+			// request that places a second node below the root sentinel is acknowledged (or in flight) — that node
+			okRoots := map[string]bool{}
 			if opened != nil {
-				if rec.RootID != opened[1] {
-					fail("root-changed", fmt.Sprintf("instance root was %s, after recovery %s", opened[1], rec.RootID))
+				okRoots[opened[1]] = true
+				if v.hist == c04.RootSwitch {
+					if acks >= c04.RootSwitchAt {
+						okRoots[c04.NewRoot] = true
+					}
+					if acks > c04.RootSwitchAt {
+						delete(okRoots, opened[1])
+					}
+				}
+			}
+			if opened != nil {
+				if !okRoots[rec.RootID] {
+					fail("root-changed", fmt.Sprintf("instance root was %s (%d requests acknowledged), after recovery %s", opened[1], acks, rec.RootID))
 				}
 				req := httptest.NewRequest("GET", "http://x/", nil)
 				req.Header.Set("Authorization", "Bearer "+opened[2])
@@ -237,7 +276,7 @@ func checkC04(r *mc.Report, thorough bool) {
 					fail("signing-key-changed", "a token issued before the crash no longer validates")
 				}
 			}
-			content, snap, err := c04Content(rec)
+			content, snap, err := c04Content(rec, v.hist)
 			if err != nil {
 				fail("unreadable", "recovered store cannot be read: "+err.Error())
 				return
@@ -261,6 +300,15 @@ func checkC04(r *mc.Report, thorough bool) {
 			// exactly one instance root: the node recorded in meta is the only one placed under "root"
 			if roots, metaRoot, err := sh.ReadRootEdges(filepath.Join(dir, "db")); err != nil {
 				fail("unreadable", "root edges cannot be read: "+err.Error())
+			} else if v.hist == c04.RootSwitch && opened != nil {
+				// here a second node below the root sentinel is the history's doing: meta must name the instance root and it must be one of them
+				found := false
+				for _, x := range roots {
+					found = found || x == metaRoot
+				}
+				if !found || metaRoot != rec.RootID || len(roots) > 2 {
+					fail("second-root", fmt.Sprintf("after recovery the file holds root edges %v, meta root %q, instance root %q", roots, metaRoot, rec.RootID))
+				}
 			} else if len(roots) != 1 || roots[0] != metaRoot || metaRoot != rec.RootID {
 				fail("second-root", fmt.Sprintf("after recovery the file holds root edges %v, meta root %q, instance root %q: a crashed initialisation left an orphaned root behind", roots, metaRoot, rec.RootID))
 			}
